@@ -22,6 +22,9 @@ var LetPrefixes = []string{
 	"let n = 1; let m = n + 1; let n = m * n; ",
 	"let k = 2; let m = k; let n = m - k; ",
 	"let n = 1; let n = n + 1; let n = n + n; ",
+	"let n = (-5); ",
+	"let n = ((-5)); let m = ((n)); ",
+	"let n = (+5); let m = (-n); ",
 }
 
 type useSite struct {
